@@ -567,7 +567,7 @@ def unknown_ids(known):
 def gen_grid(rng, env, tier):
     """exhaustive grid: objects x stages x parameter ids (+ unknown) x boundary values; each cell is one case."""
     cases = []     # (ops, signature, probe index)
-    nrand = 2 if tier == "quick" else 24
+    nrand = 2 if tier == "quick" else 64
     # --- CCtx (dynamic and static)
     for o in (0, 1):
         for sname, sfun in C_STAGES.items():
@@ -829,11 +829,8 @@ def direct_pledge_check(ctx, env):
 # --------------------------------------------------------------------------- adjust / getCParams tie (optional part)
 
 def run_adjust_tie(ctx, env, rng, found):
-    try:
-        from . import c16_adjust
-    except ImportError:
-        return
-    c16_adjust.run(ctx, env, rng, found)
+    from . import c16_adjust
+    return c16_adjust.run(ctx, env, rng, found) or []
 
 
 # --------------------------------------------------------------------------- entry
@@ -877,6 +874,21 @@ def run(ctx):
     if ctx.replay_file:
         obj = json.load(open(ctx.replay_file))
         rp = obj.get("replay", obj)
+        ctx.cov["rule"] = "replay of one recorded case"
+        if rp.get("kind") == "c16-adjust":
+            from . import c16_adjust
+            c16_adjust.replay(ctx, env, rp)
+            ctx.count(("replay",))
+            ctx.sample(rp["line"])
+            ctx.prove()
+            ctx.proof_verdict(None)
+            return
+        if rp.get("kind") == "c16-pledge":
+            direct_pledge_check(ctx, env)
+            ctx.sample(rp["ops"])
+            ctx.prove()
+            ctx.proof_verdict(None)
+            return
         if rp.get("kind") != "c16-case":
             core.log("replay: nothing executable in this file (kind=%s): re-running the proof step only" % rp.get("kind"))
             ctx.prove()
@@ -901,7 +913,7 @@ def run(ctx):
     ties = []           # disagreements where the property statement still holds on the input
     # ---- grid
     grid = gen_grid(rng, env, ctx.tier)
-    nhist = 250 if ctx.quick else 4000
+    nhist = 250 if ctx.quick else 20000
     hist = [gen_history(rng, env, 50) for _ in range(nhist)]
     allc = grid + hist
     nchunks = max(1, min(core.NCPU, len(allc) // 200))
@@ -926,7 +938,7 @@ def run(ctx):
         try:
             cxa = core.build_harness("c16_params", ["c16_params.c", "c16_dint.c"], variant="asan", extra_flags=["-w"])
             enva = Env(ml, cxa)
-            sub = allc[::7]
+            sub = allc[::3]
             probs, n = evaluate(enva, oracle, sub)
             ctx.notes["asan_cases"] = len(sub)
             for p in probs:
@@ -937,7 +949,7 @@ def run(ctx):
             ctx.violation(dict(kind="asan-build", error=repr(e)), what="ASan/UBSan run of the C16 harness failed: %r" % (e,), no_input=True)
 
     direct_pledge_check(ctx, env)
-    run_adjust_tie(ctx, env, rng, found)
+    adjust_found = run_adjust_tie(ctx, env, rng, found)
 
     ctx.cov["rule"] = (
         "grid: object {CCtx, static CCtx, CCtxParams, DCtx, static DCtx} x stage setup (fresh, dirty-init, mid-frame, after failed "
@@ -957,13 +969,23 @@ def run(ctx):
 
     # ---- proof
     with_my_gen(ctx.prove, "the proof step")
+    if not ctx.quick and getattr(ctx, "proof", None) and not ctx.proof["broken"]:
+        # independent re-check of the compiled theory by coqchk (thorough tier)
+        with core.Lock("coq"):
+            rc, o, e = core.sh(["timeout", "1200", "coqchk", "-silent", "-o", "-Q", ".", "ZV", "ZV.Props.Properties_C16"], cwd=core.COQ)
+        txt = o + e
+        ok = rc == 0 and "Axioms: <none>" in " ".join(txt.split())
+        ctx.notes["coqchk"] = "ok: axioms <none>" if ok else (" ".join(txt.split())[-600:])
+        ctx.cov["trusted_base"].append("coqchk -o ZV.Props.Properties_C16: " + ctx.notes["coqchk"][:300])
+        if not ok and my_gen_current():
+            ctx.violation(dict(kind="coqchk", output=txt[-1500:]), what="coqchk does not accept the compiled C16 theory (or reports axioms): " + txt[-300:], no_input=True)
 
     def search(broken):
         # a broken obligation: the grid above already ran the property statement on the implementation
         return [(dict(kind="c16-case", ops=p["ops"], index=p["index"], real=p["real"], model=p["model"], oracle=p["oracle"]),
                  "proof obligation broken and the property statement fails on the real library: " + "; ".join(p["oracle"][:2]))
                 for p in found[:2]]
-    if found:
+    if found or adjust_found:
         # already reported with concrete inputs; do not add a second no-input line unless the proof is what broke alone
         pr = getattr(ctx, "proof", None)
         if pr and (pr["broken"] or len(pr["discharged"]) != len(pr["obligations"])):
